@@ -347,6 +347,7 @@ type c17CloneStep struct {
 	K      string `json:"k,omitempty"`
 	V      string `json:"v,omitempty"`
 	Ms     int    `json:"ms,omitempty"`
+	Us int `json:"us,omitempty"` // timeout: extra microseconds (not a whole number of milliseconds)
 }
 
 type c17CloneCase struct {
@@ -383,6 +384,9 @@ func genC17Clone(t *rapid.T) c17CloneCase {
 			st.V = rapid.StringMatching(`[a-z]{0,5}`).Draw(t, "v")
 		case "timeout":
 			st.Ms = rapid.IntRange(1, 100000).Draw(t, "ms")
+			if rapid.Bool().Draw(t, "fractional") {
+				st.Us = rapid.IntRange(1, 999).Draw(t, "us")
+			}
 		}
 		c.Steps = append(c.Steps, st)
 	}
@@ -509,8 +513,8 @@ func execC17Clone(c c17CloneCase) *ev.Failure {
 			ctx.AddResponseHeader(st.K, st.V)
 			m.resp[st.K] = st.V
 		case "timeout":
-			ctx.SetTimeout(time.Duration(st.Ms) * time.Millisecond)
-			m.req["_timeout"] = strconv.Itoa(st.Ms)
+			ctx.SetTimeout(time.Duration(st.Ms)*time.Millisecond + time.Duration(st.Us)*time.Microsecond)
+			m.req["_timeout"] = strconv.Itoa(st.Ms) // the header carries whole milliseconds
 		case "siblingEphemeral":
 			// the next request on the same connection (same FProtocol) sets an ephemeral property:
 			// the contexts of one connection share that map by design, clones made earlier do not
